@@ -55,6 +55,7 @@ def stepCheck (st : St) (ins impl : List String) : Option (St × String) := do
       pure (host, ps, icann, pairs, (⟨err, upper, chunk, nonTXT, junk⟩ : Script)) : P _).run ins
   -- the oracle must cover every name the model or the spec may hash
   if !(subdomains host).all (fun s => (pairs.lookup s).isSome) then none
+  if !pairs.all (fun p => p.2.length == 32) then none
   let H : Bytes → Hash := fun s => (pairs.lookup s).getD []
   let hashes := hostnameToHashes H ps icann host
   let exch := serve st.db sc
@@ -103,6 +104,7 @@ def step (st : St) (line : String) : St × String :=
           pEnd
           pure (ttl, maxSize, suffix, db) : P _).run ins) with
       | some ((ttl, maxSize, suffix, db), _) =>
+        if !db.all (fun h => h.length == 32) then (st, "bad-op") else
         (⟨⟨suffix, ttl⟩, db, Cache.new maxSize, 0, true⟩, verdict (impl == ["ok"]) none "ok")
       | none => (st, "bad-op")
     | none => (st, "bad-op")
